@@ -65,7 +65,7 @@ def trace_items(r, t):
 # ---------------------------------------------------------------------------
 # the Menu
 
-PREFIXES = [[], ['add_field'], ['filter_fn'], ['set_type_a_number'], ['row_inplace', 'acf_format'], ['sort_a_rev'],
+PREFIXES = [[], ['add_field'], ['filter_fn'], ['filter_none'], ['set_type_a_number'], ['row_inplace', 'acf_format'], ['sort_a_rev'],
             ['duplicate'], ['source_list'], ['rename_a', 'delete_fields_b'], ['join_keep'], ['unpivot']]
 SUFFIXES = [[], ['delete_first'], ['delete_last'], ['filter_none'], ['join_inner'], ['concatenate'], ['sort_a'],
             ['delete_first', 'row_inplace'], ['select_fields_a'], ['join_with_self']]
@@ -122,6 +122,20 @@ def read_stream(path):
         idx += 1
         out.append(dict(name=r['name'], fields=fields, rows=rows))
     return out
+
+
+def read_back(okind, opath):
+    if okind in ('dump_to_path', 'dump_to_path_json'):
+        d = json.load(open(os.path.join(opath, 'datapackage.json')))
+        return read_dumped(lambda p: open(os.path.join(opath, p), 'rb').read(), d)
+    if okind == 'dump_to_zip':
+        z = zipfile.ZipFile(os.path.join(opath, 'o.zip'))
+        return read_dumped(lambda p: z.read(p), json.loads(z.read('datapackage.json')))
+    if okind == 'stream':
+        return read_stream(os.path.join(opath, 's.ndjson'))
+    if okind == 'checkpoint':
+        return read_stream(os.path.join(opath, 'cp', 'stream.ndjson'))
+    return None
 
 
 def norm(res, dp):
@@ -194,16 +208,17 @@ def run_menu_case(item):
             return dict(ok=False, why='downstream results differ with the observer inserted', with_=with_, without=without)
         # completeness
         persisted = None
-        if okind in ('dump_to_path', 'dump_to_path_json'):
+        try:
+            persisted = read_back(okind, opath)
+        except Exception as e:
+            return dict(ok=False, why='what the observer persisted cannot be read back: %s: %s' % (type(e).__name__, str(e)[:150]))
+        if okind in ('dump_to_path', 'dump_to_path_json', 'dump_to_zip'):
+            total = sum(len(r['rows']) for r in prefix_only)
+            if stats.get('count_of_rows') != total:
+                return dict(ok=False, why='the dumper reports %r rows, %d passed it' % (stats.get('count_of_rows'), total))
+        if False and okind in ('dump_to_path', 'dump_to_path_json'):
             d = json.load(open(os.path.join(opath, 'datapackage.json')))
             persisted = read_dumped(lambda p: open(os.path.join(opath, p), 'rb').read(), d)
-        elif okind == 'dump_to_zip':
-            z = zipfile.ZipFile(os.path.join(opath, 'o.zip'))
-            persisted = read_dumped(lambda p: z.read(p), json.loads(z.read('datapackage.json')))
-        elif okind == 'stream':
-            persisted = read_stream(os.path.join(opath, 's.ndjson'))
-        elif okind == 'checkpoint':
-            persisted = read_stream(os.path.join(opath, 'cp', 'stream.ndjson'))
         elif okind == 'printer':
             heads = state['printed'].get('headers', [])
             if heads != [r['name'] for r in prefix_only]:
